@@ -41,7 +41,8 @@ CONSTANTS
 """
 
 LENS = [0, 1, 15, 16, 17, 1023, 1024, 1025, 1124, 1125, 2048, 2049, 5000]
-FAULTS = ["b1num", "b1more", "b1cont", "b2num", "b2skip", "b2short", "etag"]
+FAULTS = ["b1num", "b1more", "b1cont", "b2num", "b2skip", "b2short", "b2empty", "b2over", "etag"]
+LEN_FAULTS = ("b2short", "b2empty", "b2over")
 
 
 def cset(xs):
@@ -74,9 +75,11 @@ def behaviour_to_schedule(beh, seed):
             for e in st.get("emit", []):
                 if e["k"] == "rep":
                     sched["reps"][e["rid"] - 1] = {"len": e["len"], "etag": True}
-            if act["flt"] != "none":
-                nth = act["nb1"] if act["flt"] == "b1num" else act["nb2"] if act["flt"] in ("b2num", "b2skip", "b2short", "etag") else 0
-                sched["fault"] = {"kind": act["flt"], "nth": nth, "short": act["sh"]}
+            if act["flt0"] != "none":
+                k = act["flt0"]
+                nth = act["nb1"] if k == "b1num" else act["nb2"] if (k.startswith("b2") or k == "etag") else 0
+                sched["fault"] = {"kind": k, "nth": nth, "short": act["sh"], "over": "double" if act["dbl"] else "one",
+                                  "repeat": bool(act["rp"])}
             if act["fate"] != "ok":
                 sched["net"][str(act["nreq"])] = act["fate"]
     sched["s1"] = sched["s1"] or [2]
@@ -145,7 +148,8 @@ def random_schedule(rng, i):
     fault = None
     if rng.random() < 0.5:
         kind = rng.choice(FAULTS)
-        fault = {"kind": kind, "nth": rng.choice([0, 0, 1, 1, 2, 3, rng.randint(0, 12)]), "short": rng.choice([1, 7, 15, 31, 500, 1023])}
+        fault = {"kind": kind, "nth": rng.choice([0, 0, 1, 1, 2, 3, rng.randint(0, 12)]), "short": rng.choice([1, 7, 15, 31, 500, 1023]),
+                 "over": rng.choice(["one", "double"]), "repeat": kind in LEN_FAULTS and rng.random() < 0.5}
     net = {}
     if rng.random() < 0.45:
         for _ in range(rng.choice([1, 1, 1, 2, 3])):
@@ -164,13 +168,18 @@ def random_schedule(rng, i):
 
 
 def matrix_schedules(rng):
-    """Every fault kind at the first / second / third occasion of short transfers (2, 3, 5 blocks in each direction)
+    """Every fault kind (length faults once and repeated) at the first / second / third occasion of short transfers (2, 3, 5 blocks in each direction)
     at small, medium and the largest block size: the faulted response is the first, a middle or the final one."""
     out = []
-    for kind in FAULTS:
-        for nth in (0, 1, 2):
-            for blocks in (2, 3, 5):
-                for szx in (0, 3, 6):
+    # length faults: once and repeated; oversize: one byte too many and two whole blocks
+    variants = {k: [(False, "one")] for k in FAULTS}
+    variants.update(b2short=[(False, "one"), (True, "one")], b2empty=[(False, "one"), (True, "one")],
+                    b2over=[(False, "one"), (True, "one"), (False, "double"), (True, "double")])
+    for kind, repeat, over, nth, blocks, szx in [(k, r, o, n, b, z) for k in FAULTS for (r, o) in variants[k]
+                                                 for n in (0, 1, 2) for b in (2, 3, 5) for z in (0, 3, 6)]:
+        if True:
+            if True:
+                if True:
                     size = 2 ** (szx + 4)
                     N = blocks * size - rng.choice([0, 1, size - 1])
                     if szx == 6 and N <= 1124:
@@ -185,7 +194,8 @@ def matrix_schedules(rng):
                         "reps": [{"len": M, "etag": True}, {"len": M + rng.choice([0, 1, size]), "etag": True}],
                         "s1": [szx] if rng.random() < 0.7 else [szx, max(0, szx - 1)],
                         "s2": [szx] if rng.random() < 0.7 else [szx, max(0, szx - 1)],
-                        "net": net, "fault": {"kind": kind, "nth": nth, "short": rng.choice([1, size // 2, size - 1])},
+                        "net": net, "fault": {"kind": kind, "nth": nth, "short": rng.choice([1, size // 2, size - 1]),
+                                              "over": over, "repeat": repeat},
                         "ack": ack_style(rng), "ackcode": rng.choice([68, 65]),
                         "dedup": rng.random() < 0.7, "con": True,
                     })
